@@ -4,11 +4,17 @@
   What is modelled (Model/C15.lean): the whole of `DecodeDepositEvent` (loop over outputs, OP_RETURN decoding incl. the
   error and the slice panic, address matches, Taproot test, sums, fee comparison), `HandleDeposit` (Split, HexToAddress,
   ParseUint(…,10,8), ×10^10, `big.Int.Bytes`), `CalculateNonce` (SHA-256 + xor-fold) and the per-transaction part of
-  `ProcessDeposits` for one configured resource (errors and recovered panics drop that transaction only).
+  `ProcessDeposits` for one and for several configured resources (errors and recovered panics drop that transaction only).
   What is assumed: `strconv.ParseFloat` and the float64 multiplication are IEEE-754 binary64 round-to-nearest (`IsRN`,
   Proofs/Binary64.lean); `math.Round` is the rational `round` away from ties (ties cannot occur: `sat_exact` shows
   |p − d| < 1/2).  Under that assumption `conversion_exact` shows that the satoshi value the code computes is the `sats`
-  field the model uses.  Addresses are compared as opaque tokens.  Iteration over several resources is C19's subject.
+  field the model uses (`conversion_witness`: such nearest values exist for every amount).  Addresses are compared as opaque
+  tokens.  Several configured resources ARE modelled (`processTxR`, matched in resource-id order as the repaired
+  ProcessDeposits does; that every relayer uses that order is C19's subject).
+  Excluded points, modelled and run on the real code: a transaction that pays bridge and fee but carries no OP_RETURN, or one
+  whose data has no `_` / no destination in 0..255, is recognised by DecodeDepositEvent and then dropped (HandleDeposit
+  panics or errors; nothing is relayed: there is no destination to relay it to); a malformed OP_RETURN output (undecodable
+  hex, or the bare one-byte script `6a`) makes DecodeDepositEvent fail instead (error / recovered panic), equally dropped.
   Not proved about SHA-256: anything (it is an executable definition compared with crypto/sha256 on every run).
 -/
 import SygmaModel.Model.C15
@@ -228,6 +234,15 @@ open Sygma.Binary64 in
 theorem conversion_exact (d : ℕ) (hd : d ≤ 21 * 10 ^ 14) (v p : ℚ)
     (hv : IsRN ((d : ℚ) / 10 ^ 8) v) (hp : IsRN (v * 10 ^ 8) p) : round p = (d : ℤ) :=
   sat_exact' d hd v p hv hp
+
+open Sygma.Binary64 in
+/-- non-vacuity of `conversion_exact`'s hypotheses: for every amount a nearest binary64 value `v` of the decimal and a nearest
+    binary64 value `p` of the product exist (the binary64 values are a finite non-empty set), and every such pair rounds to `d` -/
+theorem conversion_witness (d : ℕ) (hd : d ≤ 21 * 10 ^ 14) :
+    ∃ v p : ℚ, IsRN ((d : ℚ) / 10 ^ 8) v ∧ IsRN (v * 10 ^ 8) p ∧ round p = (d : ℤ) := by
+  obtain ⟨v, hv⟩ := exists_rn ((d : ℚ) / 10 ^ 8)
+  obtain ⟨p, hp⟩ := exists_rn (v * 10 ^ 8)
+  exact ⟨v, p, hv, hp, conversion_exact d hd v p hv hp⟩
 
 open Sygma.Binary64 in
 /-- the credited sum computed from float values equals the model's integer sum, output by output -/
